@@ -34,7 +34,7 @@ func PackSize(format string) (uint, error) {
 		case 'x':
 			_ = s.align(0) && s.inc(1)
 		case 'X':
-			s.alignOnly = true
+			s.alignNext()
 		case 's', 'z':
 			s.err = errVariableLength
 		default:
